@@ -882,6 +882,29 @@ func (fx *FuncExec) evalSpecCall(env *SpecEnv, x *ast.CallExpr) Val {
 		t := fx.specType(env, x.Args[1])
 		s := fx.em.SortOf(t)
 		return Val{T: t, Sort: s, S: fx.em.Unbox("(i.val "+v.S+")", s)}
+	case "ret":
+		// ret("callee#N") / ret("callee#N", i): what the N-th (source order) call of callee returned
+		lit, ok := x.Args[0].(*ast.BasicLit)
+		if !ok {
+			fx.specFail(env, "ret(\"callee#N\"[, i])")
+		}
+		nm, _ := strconv.Unquote(lit.Value)
+		v, ok := env.state().rets[nm]
+		if !ok {
+			fx.specFail(env, "ret(%q): that call has not been made on every path to this point", nm)
+		}
+		if len(x.Args) > 1 {
+			idx := fx.evalSpec(env, x.Args[1])
+			i, err := strconv.Atoi(idx.S)
+			if err != nil || i < 0 || i >= len(v.Tup) {
+				fx.specFail(env, "ret(%q, i): bad result index", nm)
+			}
+			return v.Tup[i]
+		}
+		if len(v.Tup) > 0 {
+			return v.Tup[0]
+		}
+		return v
 	case "called":
 		// called("callee"): a call to that callee (at-call naming) has been executed on this path
 		lit, ok := x.Args[0].(*ast.BasicLit)
